@@ -58,7 +58,31 @@ impl FluentType for Custom {
 #[derive(Debug, PartialEq, Clone)]
 pub struct MemoCustom(pub String);
 
-pub struct TagFormatter(String);
+pub struct TagFormatter(String, std::sync::atomic::AtomicUsize);
+
+/// tags starting with `cnt`: a formatter with PER-INSTANCE state - every use takes the next number of its instance and
+/// logs (tag, number) here.  One instance per (bundle, tag) hands out each number once; two instances repeat numbers.
+pub static COUNTER_LOG: std::sync::Mutex<Vec<(String, usize)>> = std::sync::Mutex::new(Vec::new());
+
+/// numbers handed out since the last call, per tag, sorted
+pub fn take_counter_log() -> std::collections::BTreeMap<String, Vec<usize>> {
+    let mut m = std::collections::BTreeMap::new();
+    let mut g = COUNTER_LOG.lock().unwrap_or_else(|e| e.into_inner());
+    for (t, k) in g.drain(..) {
+        m.entry(t).or_insert_with(Vec::new).push(k);
+    }
+    for v in m.values_mut() {
+        v.sort_unstable();
+    }
+    m
+}
+
+fn count_use(f: &TagFormatter) {
+    if f.0.starts_with("[cnt") {
+        let k = f.1.fetch_add(1, std::sync::atomic::Ordering::SeqCst);
+        COUNTER_LOG.lock().unwrap_or_else(|e| e.into_inner()).push((f.0.clone(), k));
+    }
+}
 
 /// the formatter's argument: `Hash` is deliberately coarser than `Eq` (length only), so a cache that files
 /// formatters under the hash of their arguments hands `[ok1]` to a request for `ok2`
@@ -83,7 +107,7 @@ impl intl_memoizer::Memoizable for TagFormatter {
         if args.0.starts_with("bad") {
             Err(())
         } else {
-            Ok(TagFormatter(format!("[{}]", args.0)))
+            Ok(TagFormatter(format!("[{}]", args.0), std::sync::atomic::AtomicUsize::new(0)))
         }
     }
 }
@@ -125,7 +149,10 @@ impl FluentType for MemoCustom {
                 .into();
         }
         intls
-            .with_try_get::<TagFormatter, _, _>((TagArgs(self.0.clone()),), |f| f.0.clone())
+            .with_try_get::<TagFormatter, _, _>((TagArgs(self.0.clone()),), |f| {
+                count_use(f);
+                f.0.clone()
+            })
             .unwrap_or_else(|_| "!err".to_string())
             .into()
     }
@@ -146,6 +173,7 @@ impl FluentType for MemoCustom {
                     // a slow format callback: the formatter is still in use while other threads extend the cache
                     std::thread::sleep(std::time::Duration::from_millis(3));
                 }
+                count_use(f);
                 f.0.clone()
             })
             .unwrap_or_else(|_| "!err".to_string())
